@@ -114,13 +114,15 @@ def manifest_bytes(tool, entries, sv=1, extra=None, drop=None):
     return (json.dumps(v, indent=2) + '\n').encode()
 
 def read_tree(base, skip=()):
-    """relpath ('/x/y') -> bytes for regular files under base (symlinks not followed)"""
+    """relpath ('/x/y') -> bytes for regular files under base.  Directory symlinks are not followed; a symlink
+    to a regular file counts as a file holding the target's bytes (that is what any reader sees), a dangling
+    link as absent."""
     out = {}
     for dp, dns, fns in os.walk(base, followlinks=False):
         dns[:] = [d for d in dns if os.path.join(dp, d) not in skip]
         for fn in fns:
             p = os.path.join(dp, fn)
-            if os.path.islink(p) or not os.path.isfile(p):
+            if not os.path.isfile(p):
                 continue
             with open(p, 'rb') as f:
                 out['/' + os.path.relpath(p, base)] = f.read()
@@ -425,7 +427,7 @@ def summarize_res(res):
 
 # ===================================================================== command-level stream (CLI / MCP / TUI)
 
-PROMPT_TXT = [b'prompt one\n', b'prompt two\n', b'P3', b'prompt four\nline\n']
+PROMPT_TXT = [b'prompt one\n', b'prompt two\n', b'P3', b'prompt four\nline\n', b'']     # incl. a zero-length output
 def skill_md(name, body):
     return ('---\nname: %s\ndescription: test skill %s\n---\n\n%s\n' % (name, name, body)).encode()
 def command_md(body):
@@ -451,7 +453,7 @@ class CfgWorld:
         for i in range(rng.randrange(0, 3)):
             files = {'SKILL.md': skill_md('s%d' % i, rng.choice(['one', 'two']))}
             if rng.random() < 0.6:
-                files['ref/r.txt'] = rng.choice([b'r1', b'r2\n'])
+                files['ref/r.txt'] = rng.choice([b'r1', b'r2\n', b''])
             self.modules.append({'id': 'skill:s%d' % i, 'type': 'skill', 'dir': 'modules/skills/s%d' % i, 'files': files,
                                  'targets': rng.choice([[], ['codex']]), 'enabled': True})
         if rng.random() < 0.7:
@@ -579,6 +581,21 @@ def user_edit(rng, cw, flt_hint=None, manifests=True):
             if rng.random() < 0.5: os.remove(sb.root + p)
             else: world.write(sb.root + p, b'drift\n')
             return 'drift'
+    if k < 0.52:
+        # the user replaces a deployed (or to-be-deployed) file by a symlink to a file of their own, kept elsewhere
+        tree = world_tree(sb)
+        cands = sorted({d['path'] for d in D} | {sb.root + p for p in tree if not is_manifest_name(os.path.basename(p)) and '/userfiles/' not in p})
+        if cands:
+            p = rng.choice(cands)
+            own = os.path.join(sb.home, 'userfiles', 'own%d.txt' % rng.randrange(3))
+            if rng.random() < 0.8:
+                world.write(own, rng.choice([b'my own notes\n', b'keep me\n']))
+            elif os.path.lexists(own):
+                os.remove(own)          # dangling link
+            if os.path.lexists(p): os.remove(p)
+            os.makedirs(os.path.dirname(p), exist_ok=True)
+            os.symlink(own, p)
+            return 'symlink'
     if k < 0.6:
         p = rng.choice([cw.codex_home + '/prompts/mine.md', cw.codex_home + '/notes.txt', cw.codex_home + '/skills/own/SKILL.md',
                         cw.claude_cmds + '/mine.md', cw.project + '/README.md'])
@@ -856,6 +873,57 @@ def hist_after_empty_rollback(st, cw, sb, rng, hs):
             world.write(d['path'], rng.choice([b'user version\n', b'mine\n']))
         return {'kind': 'deploy', 'adopt': False, 'flt': rng.choice([None, None, 'codex']), 'entry': rng.choice(['cli_json', 'cli_human_yes', 'cli_human_prompt_y', 'mcp', 'tui']), 'tags': ['script:user_files', 'user:collide']}
     if st == 5: return {'kind': 'deploy', 'adopt': True, 'flt': None, 'entry': 'cli_json', 'tags': ['script:adopt']}
+    return None
+
+def script_symlinked_outputs(st, cw, sb, rng):
+    """deploy; the user replaces deployed files by symlinks to files of their own (kept elsewhere, or another target's
+    output in the same directory); the modules change; deploy again (no --adopt / with a target filter): the link may be
+    replaced, the file it points to belongs to the user (or to the other target) and is in no plan"""
+    if st == 0:
+        return ['script:all'], 'cli_json', True, None
+    if st in (1, 2):
+        tree = world_tree(sb)
+        deployed = sorted(sb.root + p for p in tree if not is_manifest_name(os.path.basename(p)) and '/userfiles/' not in p)
+        tags = []; force_flt = None
+        rules, agents = cw.project + '/.rules', cw.project + '/AGENTS.md'
+        if cw.zed and cw.repo_agents and rules in deployed and agents in deployed and rng.random() < 0.5:
+            # one target's output becomes a link to the OTHER target's output in the same directory; the deploy is
+            # filtered to the link's own target, so the file it points to is neither planned nor that target's
+            p, own, force_flt = rng.choice([(rules, agents, 'zed'), (agents, rules, 'codex')])
+            os.remove(p); os.symlink(own, p); tags.append('user:symlink_to_other_target')
+            deployed = [q for q in deployed if q not in (rules, agents)]
+        for p in rng.sample(deployed, min(len(deployed), rng.randrange(1, 3))):
+            own = os.path.join(sb.home, 'userfiles', 'own%d.txt' % rng.randrange(3))
+            world.write(own, rng.choice([b'my own notes\n', b'keep me\n']))
+            os.remove(p); os.symlink(own, p); tags.append('user:symlink')
+        for m in cw.modules:        # every output changes
+            for fn in sorted(m['files']):
+                if fn == 'SKILL.md': m['files'][fn] = skill_md(m['id'].split(':')[1], 'rev%d' % st)
+                elif m['type'] == 'command': m['files'][fn] = command_md('do rev%d' % st)
+                else: m['files'][fn] = b'revision %d\n' % st
+        cw.write()
+        flt = force_flt or rng.choice([None, None, 'codex'] + (['zed'] if cw.zed else []) + (['claude_code'] if cw.claude else []))
+        return tags + ['cfg:content_all'], rng.choice(CONFIRMED_ENTRIES), rng.random() < 0.3 or force_flt is not None, flt
+    return None
+
+def hist_repeat_rollback(st, cw, sb, rng, hs):
+    """deploy, deploy, rollback to S, the user drifts managed files, the SAME rollback again: it restores again"""
+    def drift():
+        tree = world_tree(sb)
+        deployed = sorted(p for p in tree if not is_manifest_name(os.path.basename(p)))
+        for p in rng.sample(deployed, min(len(deployed), rng.randrange(1, 3))):
+            if rng.random() < 0.4: os.remove(sb.root + p)
+            else: world.write(sb.root + p, b'user drift\n')
+    if st == 0: return {'kind': 'deploy', 'adopt': False, 'flt': None, 'entry': 'cli_json', 'tags': ['script:all']}
+    if st == 1:
+        for m in cw.modules:
+            if m['type'] == 'prompt': m['files'][sorted(m['files'])[0]] = b'second version\n'
+        cw.add_prompt(); cw.write()
+        return {'kind': 'deploy', 'adopt': False, 'flt': None, 'entry': rng.choice(['cli_json', 'mcp']), 'tags': ['script:second']}
+    if st == 2: hs.rr_to = rng.choice([0, 0, 1]); return {'kind': 'rollback', 'to': hs.rr_to, 'tags': ['script:rollback']}
+    if st == 3: drift(); return {'kind': 'rollback', 'to': hs.rr_to, 'tags': ['script:same_rollback_again', 'user:drift']}
+    if st == 4: drift(); return {'kind': 'rollback', 'to': 1 - hs.rr_to, 'tags': ['script:other_rollback', 'user:drift']}
+    if st == 5: drift(); return {'kind': 'rollback', 'to': 1 - hs.rr_to, 'tags': ['script:same_rollback_again', 'user:drift']}
     return None
 
 def setup_moved_roots(cw, rng):
